@@ -195,9 +195,11 @@ func GenerateImpl(seed uint64, root string) *Module {
 		uname = "ifc" // the current package's name equals a qualifier
 	}
 	ifcAlias := ""
-	switch r.Intn(3) {
+	switch r.Intn(4) {
 	case 1:
 		ifcAlias = "api"
+	case 2:
+		ifcAlias = []string{"API", "Contract", "_ifc", "C"}[r.Intn(4)] // a local import name is any identifier
 	}
 	qual := "ifc."
 	if ifcAlias != "" {
@@ -506,6 +508,12 @@ func GenerateImpl(seed uint64, root string) *Module {
 	// a second file of the same package that does NOT import the interface packages: qualifiers bound only in
 	// the other file are not bound here (imports are per file)
 	q1 := strings.TrimSuffix(qual, ".")
+	// a sibling package in which the qualifier `ifc` names the OTHER package of that name (exp/.../v2/ifc); it imports
+	// the user package, so it is analysed after it in the same run
+	upath := g.base + "/" + map[bool]string{true: "ifcuser", false: "user"}[uname == "ifc"]
+	m.Files[root+"/sibling/s.go"] = "package sibling\n\nimport (\n\t\"" + g.base + "/v2/ifc\"\n\t_ \"" + upath + "\"\n)\n\nvar _ ifc.Data\n\n" +
+		"// @implements ifc.Legacy\ntype Old struct{}\n\nfunc (Old) Old() {}\n\n// @implements ifc.I0\ntype V2Only struct{}\n\nfunc (V2Only) OnlyInV2() {}\n\n" +
+		"// @implements &ifc.I0\ntype Neither struct{}\n\n// @implements ifc.Closer\ntype NoSuch struct{}\n"
 	m.Files[udir+"/z_noimport.go"] = "package " + uname + "\n\n// @implements " + q1 + ".I0\ntype Lonely struct{}\n\n// @implements &" + strings.TrimSuffix(yq, ".") + ".I" + fmt.Sprint(nI-1) + "\ntype Lonely2 struct{}\n\n// @implements LocalI\ntype Lonely3 struct{}\n"
 	return m
 }
